@@ -20,6 +20,14 @@ let init () =
   register "jt1078" (fun args -> match args with
     | [h] -> show_res (decode fresh_pkt (bytes_of_hex h))
     | _ -> "bad-args");
+  register "jt1078reuse" (fun args -> match args with
+    | [h] ->
+      let d = bytes_of_hex h in
+      (match decode_stream_reuse fresh_pkt d with
+       | Ok ps -> "ok " ^ String.concat " | " (Stdlib.List.map (fun p -> show_pkt p ^ " rest=-") ps)
+       | Err e -> "err " ^ dec_of_n e
+       | Panic -> "panic")
+    | _ -> "bad-args");
   register "jt1078seq" (fun args ->
     let r = ref fresh_pkt and last = ref "none" in
     Stdlib.List.iter (fun h ->
